@@ -95,6 +95,10 @@ def cases(tier, seed):
         for nsub in (2, 3):
             for herm in (True, False):
                 out.append(dict(kind="interleaved", N=N, nsub=nsub, hermitian=herm, seed=seed))
+                if N == 12:
+                    # non-contiguous labels (an unused label is an empty block): only the block indices are relabelled
+                    out.append(dict(kind="interleaved", N=N, nsub=nsub, hermitian=herm, seed=seed, relabel=[0, 3, 1][:nsub] if nsub == 3 else [0, 2]))
+                    out.append(dict(kind="interleaved", N=N, nsub=nsub, hermitian=herm, seed=seed, relabel=[2, 0, 4][:nsub] if nsub == 3 else [3, 1]))
     for fn in ("cos-exp", "rational", "sqrt"):
         for b in ("h21", "n21"):
             out.append(dict(kind="analytic", base=b, fn=fn, seed=seed))
@@ -579,6 +583,34 @@ def run_interleaved(case):
                     V.append(f"operator_to_BlockSeries(subspace_indices) block ({i},{j},{n}) is not L_i† A R_j for the ascending states of each label")
     a = block_diagonalize([np.diag(E), h1], subspace_indices=labels, hermitian=herm)
     b = block_diagonalize([np.diag(E), h1], subspace_eigenvectors=vecs, hermitian=herm)
+    if case.get("relabel"):
+        rel = np.array(case["relabel"])
+        try:
+            c = block_diagonalize([np.diag(E), h1], subspace_indices=rel[labels], hermitian=herm)
+        except (ValueError, TypeError, NotImplementedError):
+            return [], False  # refusing labels with gaps is acceptable; answering differently is not
+        for name, sa, sc in zip(("H_tilde", "U", "U_inv"), a, c):
+            if sc.shape[0] != rel.max() + 1:
+                V.append(f"{name}: {sc.shape[0]} blocks for labels {sorted(set(rel.tolist()))}")
+                continue
+            for n in (0, 1, 2):
+                for i in range(nsub):
+                    for j in range(nsub):
+                        x, y = sa[i, j, n], sc[int(rel[i]), int(rel[j]), n]
+                        from pymablock.series import one
+
+                        if x is one or y is one:
+                            if x is not y:
+                                V.append(f"{name}[{i},{j},{n}]: identity sentinel mismatch after relabelling the blocks {rel.tolist()}")
+                            continue
+                        dx = None if x is zero else np.asarray(x.toarray() if hasattr(x, "toarray") else x)
+                        dy = None if y is zero else np.asarray(y.toarray() if hasattr(y, "toarray") else y)
+                        if (dx is None) != (dy is None):
+                            if np.abs(dx if dy is None else dy).max(initial=0) > 1e-12:
+                                V.append(f"{name}[{i},{j},{n}]: zero sentinel mismatch after relabelling the blocks {rel.tolist()}")
+                        elif dx is not None and (dx.shape != dy.shape or np.abs(dx - dy).max() > 1e-9 * max(1.0, np.abs(dx).max())):
+                            V.append(f"{name}[{i},{j},{n}] changes when the block labels are relabelled to {rel.tolist()}")
+        return V[:3], True
     for name, sa, sb in zip(("H_tilde", "U", "U_inv"), a, b):
         for n in (1, 2):
             for i in range(nsub):
